@@ -3,6 +3,7 @@ import MosnVerif.Model.Headers
 import MosnVerif.Drive.RetryDrive
 import MosnVerif.Model.RouteFinalize
 import MosnVerif.Model.HeaderWiring
+import MosnVerif.Drive.C17Policy
 namespace MosnVerif.Drive.C17
 open MosnVerif.Drive MosnVerif.Model.Headers MosnVerif.Gen.HeaderMutation MosnVerif.Gen.ProxyTimeout
 
@@ -191,6 +192,8 @@ def run (caseToks impl : List String) : String :=
   | "rd" :: rest => RetryDrive.rd rest impl
   | "fz" :: rest => fz rest impl
   | "hw" :: rest => hw rest impl
+  | "rp" :: rest => C17Policy.rp parseInt64 optStr rest impl
+  | "re" :: rest => C17Policy.re rest impl
   | _ => "E E unknown-kind"
 
 end MosnVerif.Drive.C17
